@@ -1,23 +1,20 @@
 """C12 fiber barrier: Coq theorems (Properties_C12.v) + lock-step correspondence of the
 real src/fiber_barrier.c + src/fiber_manager.c (wait_in_mpsc_queue / wake_from_mpsc_queue /
-maintenance) on the T1 machine with coq/Barrier.v (client of coq/T1K.v) + an
-implementation-side monitor of the property itself (round safety, one serial fiber per
-round, everybody returns).
+maintenance) on the T1 machine with coq/Barrier.v (client of coq/T1K.v, two waiter lists
+alternating by round parity) + an implementation-side monitor of the property itself
+(round safety, one serial fiber per round, everybody returns).
 
-Known finding F-C12 (known_findings.json, theorem barrier_round_safety_refuted): with
-count >= 3 and immediate reuse the serial fiber of round k, still waiting for an arriver
-that has incremented the counter but not yet enqueued, pops the round-(k+1) entry of a
-fiber it already released.  Only that signature is filtered; everything else is a
-VIOLATION."""
+F-C12 (one list shared by all rounds: the serial fiber of round k pops the round-(k+1)
+entry of a fiber it already released) was fixed in /repo by 20d3952; its witness stays in
+corpus/C12.txt and is reported as a VIOLATION if the defect returns."""
 import os
 import random
-import re
 
 from vf import core
 
-THEOREMS = ["barrier_round_safety_refuted", "barrier_single_round", "barrier_reuse_count_le_2",
-            "barrier_one_serial_per_round", "barrier_no_return_before_count",
-            "barrier_single_consumer_refuted", "barrier_single_consumer"]
+THEOREMS = ["barrier_round_safety", "barrier_one_serial_per_round", "barrier_single_consumer",
+            "barrier_all_return", "barrier_single_round", "barrier_no_return_before_count",
+            "barrier_round_safety_one_list_refuted", "barrier_more_participants_refuted"]
 WAIT = 1
 T1_SOURCES = ["src/fiber_manager.c", "src/fiber.c", "src/fiber_barrier.c", "src/fiber_mutex.c",
               "src/fiber_spinlock.c", "src/hazard_pointer.c"]
@@ -42,11 +39,6 @@ def parse_case(case):
 # implementation-side oracle of the property (reads only the harness events,
 # the fetch_add on the counter and the schedule(f) events of the real code)
 # --------------------------------------------------------------------------
-RE_EARLY = re.compile(r"^fiber \d+ returned from round \d+ before \d+ fibers entered round \d+ "
-                      r"\(entered=\d+ arrived=\d+\); cause: serial fiber \d+ of round \d+ popped "
-                      r"the entry of fiber \d+ for the later round \d+")
-RE_LATER = re.compile(r"^serial fiber \d+ of round \d+ popped the entry of fiber \d+ for the later round \d+")
-
 
 def monitor(case, tr, raw):
     if tr is None:
@@ -149,22 +141,6 @@ def monitor(case, tr, raw):
     return None
 
 
-def _is_fc12(label, case, why):
-    """F-C12 exactly: count >= 3, the barrier is reused, and the failure is the early
-    release caused by the serial fiber popping an entry of a later round."""
-    params, rounds = parse_case(case)
-    if params[1] < 3 or max(rounds) < 2:
-        return False
-    return bool(RE_EARLY.match(why) or RE_LATER.match(why))
-
-
-KNOWN = [{"id": "F-C12",
-          "what": "barrier_round_safety fails for count>=3 with immediate reuse: the serial fiber of round k pops the "
-                  "round-(k+1) entry of a fiber it already released, which returns from round k+1 before count fibers "
-                  "entered it (barrier_round_safety_refuted; corpus/C12.txt)",
-          "match": _is_fc12}]
-
-
 # --------------------------------------------------------------------------
 # cases
 # --------------------------------------------------------------------------
@@ -219,7 +195,7 @@ def gen_cases(ctx, tier):
     for k in range(0, 14):
         for j in range(0, 6):
             add("reuse_count_le_2", 2, [3, 3], [0] * (2 + k) + [1] * (10 + 7 * j) + [0] * 5 + [1] * 40)
-    # (3) count >= 3 with immediate reuse: the F-C12 family
+    # (3) count >= 3 with immediate reuse (the family in which F-C12 showed up before the fix)
     for _ in range(6000 if big else 700):
         count = rng.choice([3, 3, 3, 4])
         r = rng.randint(2, 3)
@@ -260,7 +236,7 @@ def run(ctx):
     exe = build(ctx)
     if exe:
         cases = corpus() + gen_cases(ctx, ctx.tier)
-        ok = core.correspond(ctx, "barrier", "barrier", exe, cases, monitor, KNOWN)
+        ok = core.correspond(ctx, "barrier", "barrier", exe, cases, monitor)
         st = ctx.stats["barrier"]
         ctx.coverage.update({"traces_validated_against_impl": st["cases"] - st["differ"],
                              "evaluations": st["cases"], "distinct_nontrivial": st["nontrivial"],
@@ -273,7 +249,7 @@ def run(ctx):
 
 def search(ctx, exe):
     """something stopped checking: look for a concrete property failure on the
-    implementation with more schedules (monitor only; F-C12 stays filtered)."""
+    implementation with more schedules (monitor only)."""
     c2 = core.Ctx(ctx.pid, "thorough", ctx.seed + 1000)
     try:
         cases = gen_cases(c2, "thorough")[:20000]
@@ -283,7 +259,7 @@ def search(ctx, exe):
     for c, line in zip(cases, impl):
         why = monitor(c, core.parse_trace(line) if line else None, line)
         if why:
-            core.report_violation(ctx, "barrier", c, why, line, KNOWN)
+            core.report_violation(ctx, "barrier", c, why, line)
             if len(ctx.violations) >= 3:
                 break
 
@@ -297,10 +273,8 @@ def replay(ctx, payload):
     impl = core.run_sharded([exe], [c])[0]
     mod = core.model_run("barrier", [c])[0]
     why = monitor(c, core.parse_trace(impl), impl)
-    known = bool(why) and _is_fc12("barrier", c, why)
-    print("case:  %s\nimpl:  %s\nmodel: %s\nmonitor: %s%s\nlock-step: %s" %
-          (c, impl, mod, why or "ok", " [known finding F-C12]" if known else "",
-           "identical" if impl == mod else "DIFFER"))
+    print("case:  %s\nimpl:  %s\nmodel: %s\nmonitor: %s\nlock-step: %s" %
+          (c, impl, mod, why or "ok", "identical" if impl == mod else "DIFFER"))
     return 1 if (why or impl != mod) else 0
 
 
@@ -310,11 +284,11 @@ TRUSTED = [
     "extraction: ExtrOcamlBasic only; OCaml driver coq/extract/driver.ml",
     "rt/rt.c (TSan-hook baton scheduler) and rt/t1.c (T1 machine: real fiber_manager.c/fiber.c, one pthread per fiber; "
     "context switch, run queues and event layer replaced)",
-    "hand-written models coq/T1K.v + coq/Barrier.v; tie = identical per-access traces",
+    "hand-written models coq/T1K.v + coq/Barrier.v (two = true); tie = identical per-access traces",
     "SC interleaving; -O0 instrumented build; barrier->count is immutable and not traced",
 ]
 ASSUME = ["given C01 and C02 (a fiber behaves as a sequential process that is resumed once per wake-up): the T1 cut of DESIGN.md 3.4",
-          "exactly `count` fibers use the barrier (barrier_single_round, barrier_reuse_count_le_2, barrier_single_consumer); "
-          "with more participants than count two serial fibers can pop the waiter list at once "
-          "(barrier_single_consumer_refuted: count = 3, six fibers; seen on the real code with count = 2, four fibers)",
+          "exactly `count` fibers use the barrier (all theorems except the two all-configuration ones); with more "
+          "participants than count two serial fibers can pop the same waiter list at once, also after the fix "
+          "(F-C12b, outside the property's setting: barrier_more_participants_refuted)",
           "the arrival counter does not wrap (uint64)"]
